@@ -713,7 +713,7 @@ func runC16(c *Ctx) {
 			if def == ref.NearestEven {
 				// systematic sweep of large arguments (1e4 .. 1e6) where results are far beyond the
 				// range and internal 16-bit exponents are at risk: every window wider than the step is hit
-				step := c.Pick(100, 20)
+				step := c.Stride(100, 100)
 				kk := 0
 				for v := 10000; v < 1000000; v += step {
 					kk++
